@@ -189,8 +189,13 @@ pub(crate) fn bitmap_data<'a>(
     location: &BitmapLocation,
     is_color: bool,
 ) -> Result<BitmapData<'a>, ReadError> {
+    // The location may have been built by the caller
+    let data_end = location
+        .data_offset
+        .checked_add(location.data_size)
+        .ok_or(ReadError::OutOfBounds)?;
     let mut image_data = offset_data
-        .slice(location.data_offset..location.data_offset + location.data_size)
+        .slice(location.data_offset..data_end)
         .ok_or(ReadError::OutOfBounds)?
         .cursor();
     match location.format {
